@@ -166,7 +166,10 @@ func (s *LinearState) Add(ctx *Context, id string, x Map) (string, error) {
 		return id, err
 	}
 
-	bs, err := json.Marshal(&x)
+	// Store the prepared fact (with an absolute 'expires'), not what
+	// we were given (which might have a relative 'ttl' that a load
+	// would not understand).
+	bs, err := json.Marshal(&m)
 	if err != nil {
 		return id, err
 	}
